@@ -1186,4 +1186,106 @@ theorem handlePublish_state (s : NodeSt) (peer ident space topic msgIdent : Stri
   · simp
   split <;> (rename_i heq; have := rateAllow_state s peer; rw [heq] at this; simpa using this)
 
+/-! ### serving side: invariants -/
+
+theorem Reg_congr {s s' : NodeSt} (h : s'.streams = s.streams) (sid : Nat) (sp p : String) :
+    s'.Reg sid sp p ↔ s.Reg sid sp p := by simp [NodeSt.Reg, h]
+
+theorem Agree_congr {s s' : NodeSt} (hr : s'.remote = s.remote) (hs : s'.streams = s.streams)
+    (hp : s'.pool = s.pool) (h : s.Agree) : s'.Agree where
+  poolNodup := by rw [hp]; exact h.poolNodup
+  trieReach := fun sp t ht => h.trieReach sp t (by rw [← hr]; exact ht)
+  trieCount := fun sp t ht p => by
+    have := h.trieCount sp t (by rw [← hr]; exact ht) p
+    simpa [Reg_congr hs] using this
+  trieHas := fun sid sp p hreg => by
+    rw [hr]; exact h.trieHas sid sp p ((Reg_congr hs sid sp p).mp hreg)
+  tags := fun st hst tag => by
+    have := h.tags st (by rw [← hp]; exact hst) tag
+    simpa [Reg_congr hs] using this
+  inPool := fun sid sp p hreg => by
+    rw [hp]; exact h.inPool sid sp p ((Reg_congr hs sid sp p).mp hreg)
+  validReg := fun sid sp p hreg => h.validReg sid sp p ((Reg_congr hs sid sp p).mp hreg)
+
+theorem NoEmpty_congr {s s' : NodeSt} (hr : s'.remote = s.remote) (hs : s'.streams = s.streams)
+    (h : s.NoEmpty) : s'.NoEmpty where
+  streams := fun sid r hl => by
+    obtain ⟨sp, p, hreg⟩ := h.streams sid r (by rw [← hs]; exact hl)
+    exact ⟨sp, p, (Reg_congr hs sid sp p).mpr hreg⟩
+  remote := fun sp t ht => h.remote sp t (by rw [← hr]; exact ht)
+
+theorem Agree_empty (a b c : Nat) : ({ capSpace := a, capStream := b, burst := c } : NodeSt).Agree where
+  poolNodup := by simp
+  trieReach := by intro sp t h; simp [alookup] at h
+  trieCount := by intro sp t h; simp [alookup] at h
+  trieHas := by rintro sid sp p ⟨r, pats, h, _⟩; simp [nlookup] at h
+  tags := by intro st h; simp at h
+  inPool := by rintro sid sp p ⟨r, pats, h, _⟩; simp [nlookup] at h
+  validReg := by rintro sid sp p ⟨r, pats, h, _⟩; simp [nlookup] at h
+
+theorem NoEmpty_empty (a b c : Nat) : ({ capSpace := a, capStream := b, burst := c } : NodeSt).NoEmpty where
+  streams := by intro sid r h; simp [nlookup] at h
+  remote := by intro sp t h; simp [alookup] at h
+
+theorem poolStream_none_iff (s : NodeSt) (sid : Nat) :
+    s.poolStream sid = none ↔ ∀ st, st ∈ s.pool → st.sid ≠ sid := by
+  simp [NodeSt.poolStream, List.find?_eq_none]
+
+theorem Agree_openStream {s : NodeSt} (h : s.Agree) (sid : Nat) (peer ident : String)
+    (hf : s.poolStream sid = none) : (s.openStream sid peer ident).Agree where
+  poolNodup := by
+    have hf' := (poolStream_none_iff s sid).mp hf
+    simp only [NodeSt.openStream, List.map_append, List.map_cons, List.map_nil]
+    refine List.nodup_append.mpr ⟨h.poolNodup, by simp, ?_⟩
+    intro a ha b hb hab
+    simp at hb; subst hb; subst hab
+    obtain ⟨st, hst, hsid⟩ := List.mem_map.mp ha
+    exact hf' st hst hsid
+  trieReach := h.trieReach
+  trieCount := h.trieCount
+  trieHas := h.trieHas
+  tags := by
+    intro st hst tag
+    simp only [NodeSt.openStream, List.mem_append, List.mem_singleton] at hst
+    rcases hst with hst | hst
+    · exact h.tags st hst tag
+    · subst hst
+      simp only [List.not_mem_nil, false_iff]
+      rintro ⟨sp, p, hreg, _⟩
+      obtain ⟨st, hst, hsid⟩ := h.inPool sid sp p hreg
+      exact (poolStream_none_iff s sid).mp hf st hst hsid
+  inPool := by
+    intro sid' sp p hreg
+    obtain ⟨st, hst, hsid⟩ := h.inPool sid' sp p hreg
+    exact ⟨st, by simp [NodeSt.openStream, hst], hsid⟩
+  validReg := h.validReg
+
+/-- with the invariants in place, "nothing is registered any more" means every view is empty -/
+theorem clean_of_no_reg {s : NodeSt} (ha : s.Agree) (hn : s.NoEmpty)
+    (hw : ∀ sid sp p, ¬ s.Reg sid sp p) : s.Clean := by
+  have h1 : s.streams = [] := by
+    cases hs : s.streams with
+    | nil => rfl
+    | cons e rest =>
+      obtain ⟨sid, r⟩ := e
+      obtain ⟨sp, p, hreg⟩ := hn.streams sid r (by simp [hs, nlookup])
+      exact absurd hreg (hw sid sp p)
+  have h2 : s.remote = [] := by
+    cases hs : s.remote with
+    | nil => rfl
+    | cons e rest =>
+      obtain ⟨sp, t⟩ := e
+      have hl : alookup sp s.remote = some t := by simp [hs, alookup]
+      obtain ⟨p, hp⟩ := hn.remote sp t hl
+      obtain ⟨sid, hreg⟩ := (ha.trieCount sp t hl p).mp hp
+      exact absurd hreg (hw sid sp p)
+  have h3 : ∀ st, st ∈ s.pool → st.tags = [] := by
+    intro st hst
+    apply List.eq_nil_iff_forall_not_mem.mpr
+    intro tag htag
+    obtain ⟨sp, p, hreg, _⟩ := (ha.tags st hst tag).mp htag
+    exact hw _ sp p hreg
+  simp only [NodeSt.Clean, NodeSt.cleanB, Bool.and_eq_true, List.isEmpty_iff, List.all_eq_true]
+  exact ⟨⟨h2, h1⟩, fun st hst => by simp [h3 st hst]⟩
+
 end AnySync.PubSub
